@@ -13,7 +13,7 @@ import (
 	insaneJSON "github.com/ozontech/insane-json"
 )
 
-func TestVerifOpenDoIfByteLenEmptyContainer(t *testing.T) {
+func TestVerifDoIfByteLenEmptyContainer(t *testing.T) {
 	measure := func(event string, n int) bool {
 		checker, err := NewFromMap(map[string]any{"op": "byte_len_cmp", "field": "f", "cmp_op": "eq", "value": n})
 		if err != nil {
